@@ -28,7 +28,7 @@ func genExts(r *RNG, profileKind int) (uint16, []extD) {
 			l := r.Pick(0, 0, 1, 2, 3, 17, 40, 255)
 			exts = append(exts, extD{uint8(ids[i] + 1), r.Bytes(l)})
 		}
-		return 0x1000, exts
+		return twoByteProfile(r), exts
 	default: // legacy: one id-0 value of whole words
 		prof := legacyProfile(r)
 		return prof, []extD{{0, r.Bytes(4 * r.Pick(0, 1, 1, 2, 5))}}
@@ -94,11 +94,13 @@ func genWfPacket(r *RNG) (hdrDesc, []byte, int) {
 func hdrTags(d hdrDesc) []string {
 	k := "noext"
 	if d.ext {
-		switch d.profile {
-		case 0xBEDE:
+		switch {
+		case d.profile == 0xBEDE:
 			k = "onebyte"
-		case 0x1000:
+		case d.profile == 0x1000:
 			k = "twobyte"
+		case isTwoByte(d.profile):
+			k = "twobyte with appbits"
 		default:
 			k = "legacy"
 		}
